@@ -746,10 +746,17 @@ Section Step.
           { destruct (rb (snd mi) false d); destruct (rc (snd mi) d); cbn in *; try contradiction; subst; auto. }
           destruct d; try contradiction; exact G.
         * destruct d; try contradiction; try exact I.
-          destruct Hs as (_&_&_&_&_&_&_&_&_&_&Hnp&_&_&_&Hsp). rewrite Hsp.
-          destruct (find_idx (fun m => is_prefix (m_disc (fst m)) s) ms) as [[i mi]|] eqn:E; [|exact I].
+          destruct Hs as (_&_&_&_&_&_&_&_&_&_&Hnp&_&_&_&Hsp). rewrite Hsp. cbn [andb].
+          destruct (sp_parse delim ms s) as [[[i mi] rest]|] eqn:E; [|exact I].
           rewrite Hnp, andb_false_r.
-          pose proof (Hrec (snd mi) false (DString (drop (length (m_disc (fst mi))) s)) (member_wf ms _ i mi Hch E)) as Hm.
+          assert (Hmw : wf (snd mi) = true).
+          { unfold sp_parse in E. destruct delim.
+            - destruct (find_idx _ ms) as [[i' m']|] eqn:E2; [|discriminate]. inversion E; subst.
+              eapply member_wf; eauto.
+            - destruct (split_first _ _ _) as [[p0 r0]|]; [|discriminate].
+              destruct (find_idx _ ms) as [[i' m']|] eqn:E2; [|discriminate]. inversion E; subst.
+              eapply member_wf; eauto. }
+          pose proof (Hrec (snd mi) false (DString rest) Hmw) as Hm.
           destruct (rb (snd mi) false _); destruct (rc (snd mi) _); cbn in *; try contradiction; subst; auto.
     - (* enum *)
       destruct Hs as (_&_&_&_&_&_&_&_&Hea&Het&_).
